@@ -321,7 +321,7 @@ fn check_type_relation<T: TypeLookup>(
             // Insert assumption for recursive types
             assumptions.insert(key);
 
-            match mode {
+            let result = match mode {
                 UnionMode::All => variants.iter().all(|&variant_id| {
                     check_type_relation(
                         variant_id,
@@ -342,7 +342,13 @@ fn check_type_relation<T: TypeLookup>(
                         type_stack,
                     )
                 }),
+            };
+            // A refuted hypothesis must not stay behind: the same pair asked again later in
+            // this query would be answered "true" by the assumption check above.
+            if !result {
+                assumptions.remove(&key);
             }
+            result
         }
 
         // Union on right side: self must match ANY variant (same for both modes)
@@ -362,6 +368,10 @@ fn check_type_relation<T: TypeLookup>(
             });
             if !already_on_stack {
                 type_stack.pop();
+            }
+            // Withdraw the hypothesis when it is refuted (see the union-on-left arm).
+            if !result {
+                assumptions.remove(&key);
             }
             result
         }
